@@ -301,6 +301,9 @@ def from_file_case(kind, j, field):
     net = base_network(kind)
     N = len(net)
     net[j][field] = Sym("v", "int")
+    # lockouts are not validated, only carried: they must survive the conversion from the legacy layout
+    net[1]["link_idxs_lockout"] = [2]
+    net[2]["link_idxs_lockout"] = [1, 3] if N > 3 else [1]
     old = [old_link(l) for l in net]
 
     def assume(S):
@@ -341,6 +344,17 @@ def from_file_case(kind, j, field):
                 got = links.elems[k].fields[c.h.mir.field_index("Link", f, len(links.elems[k].fields))] if hasattr(links, "elems") else links[k][f]
                 got = got.fields[0] if hasattr(got, "fields") else got
                 conds.append(XEQ(got, exp[k][f]))
+            # data carried through unchanged: lockout list and length
+            want_lock = [x for x in net[k]["link_idxs_lockout"]]
+            if hasattr(links, "elems"):
+                lk = links.elems[k].fields[c.h.mir.field_index("Link", "link_idxs_lockout", len(links.elems[k].fields))]
+                got_lock = [(e.fields[0] if hasattr(e, "fields") else e) for e in lk.elems]
+                ln = links.elems[k].fields[c.h.mir.field_index("Link", "length", len(links.elems[k].fields))]
+            else:
+                got_lock = list(links[k].get("link_idxs_lockout", []))
+                ln = links[k]["length"]
+            conds.append(len(got_lock) == len(want_lock) and all(a == b for a, b in zip(got_lock, want_lock)))
+            conds.append(EQ(ln, net[k]["length"]))
         return AND(*conds)
 
     claims = [
